@@ -215,3 +215,14 @@ pub broadcast group std_shim_axioms {
     ax_contains_usize,
     ax_extend_vec,
 }
+
+// ---- R13: byte-string literals ---------------------------------------------------------------------
+/// `b"..."`: Verus knows a literal's length but not its contents; the extractor passes the literal and
+/// the sequence of its bytes (computed from the literal itself).
+#[verifier::external_body]
+pub fn blit<const N: usize>(s: &'static [u8; N], Ghost(v): Ghost<Seq<u8>>) -> (r: &'static [u8; N])
+    ensures
+        r@ == v,
+{
+    s
+}
